@@ -53,10 +53,12 @@ def attr_specs_check(violations):
             violations.append(dict(kind='bulk', helper='connect_many_to_one', attrs=['a'], src_set=kind,
                                    observed=[f'src_set given as a {kind}: connections made {[(f[0], f[1]) for f in w.flows]}; every one of the sources 1, 2, 3 must be connected to 9']))
         for evenly in (True, False):
-            w = FakeWorld(); rec = Recorder(5); old = util.random; util.random = rec
+            w = FakeWorld(); rec = Recorder(5); old = util.random; util.random = rec; res = ()
             try:
                 # (src_set is declared a sequence - it is sliced; dest_set is copied into a list first, so any iterable will do)
                 res = util.connect_randomly(w, [1, 2, 3, 4] if kind != 'tuple' else (1, 2, 3, 4), mk([7, 8]), 'a', evenly=evenly); n += 1
+            except Exception as e:
+                w.flows.append((f'{type(e).__name__}: {e}', None, frozenset(), ()))
             finally:
                 util.random = old
             if sorted(f[0] for f in w.flows) != [1, 2, 3, 4] or set(res) != {f[1] for f in w.flows} or not {f[1] for f in w.flows} <= {7, 8}:
@@ -73,7 +75,11 @@ def call(nsrc, ndest, evenly, maxc, seed):
     try:
         kw = {} if maxc is None else {'max_connects': maxc}
         try:
+            src0, dest0 = list(src), list(dest)
             res = util.connect_randomly(w, src, dest, 'a', evenly=evenly, **kw); out = 'ok'
+            if src != src0 or dest != dest0:
+                # the helpers work on the caller's lists: these must come back as they were given
+                out = f'the caller\'s own lists were changed (src_set {src0} -> {src}, dest_set {dest0} -> {dest})'; src, dest = src0, dest0
         except AssertionError:
             res = None; out = 'assert'
         except BaseException as e:
